@@ -340,12 +340,21 @@ class _TextualFinder:
 
     def _search_in_f_string(self, f_string: str) -> Iterator[int]:
         tree = ast.parse(f_string)
+        lines = f_string.split("\n")
+
+        def offset(lineno, col_offset):
+            # the column offsets of the ast count UTF-8 bytes, not characters
+            line = lines[lineno - 1].encode("utf-8")
+            return sum(len(ln) + 1 for ln in lines[: lineno - 1]) + len(
+                line[:col_offset].decode("utf-8")
+            )
+
         for node in ast.walk(tree):
             if isinstance(node, ast.Name) and node.id == self.name:
-                yield node.col_offset
+                yield offset(node.lineno, node.col_offset)
             elif isinstance(node, ast.Attribute) and node.attr == self.name:
                 assert node.end_col_offset is not None
-                yield node.end_col_offset - len(self.name)
+                yield offset(node.end_lineno, node.end_col_offset) - len(self.name)
 
     def _normal_search(self, source: str) -> Iterator[int]:
         current = 0
